@@ -687,15 +687,11 @@ func (self *ReplicationClient) InitSync() error {
 		return err
 	}
 
-	// the position is only moved by what has actually been received: a transfer that is cut
-	// before its first record must not leave the follower claiming the leader's position
+	// the position is only moved by what has actually been received: the announced id is the
+	// first one the leader is going to stream after the files, not one the follower has got
 	self.currentAofId = [16]byte{}
 	self.manager.slock.logger.Infof("Replication client start recv files util aofId %s", FormatAofId(aofId))
-	err = self.recvFiles()
-	if err == nil && self.currentAofId == [16]byte{} {
-		self.currentAofId = aofId
-	}
-	return err
+	return self.recvFiles()
 }
 
 func (self *ReplicationClient) sendStarted() error {
